@@ -440,13 +440,19 @@ def r8_receiver_addresses(run, ctx):
               "config.endpoint(service, binding, <own type>)",
               "receiver addresses derive from %s" % sorted(repr(a) for a in got),
               fi.loc())
-    ts = [s for s in walk_no_nested(fi.node) if isinstance(s, ast.Assign) and
-          unparse(s.targets[0]) == "timeslack"]
-    ok = any(unparse(s.value) == "self.config.accepted_time_diff" for s in ts) \
-        and all(unparse(s.value) in ("self.config.accepted_time_diff", "0")
-                for s in ts)
+    # the slack handed to the request object: the configured value (or 0)
+    tcfg = cfg
+    torg = org
+    uses = [(nd, arg_of(c, None, "timeslack")) for nd in tcfg.nodes
+            if nd.kind not in ("true", "false", "exc")
+            for c in tcfg.own_calls(nd) if arg_of(c, None, "timeslack") is not None]
+    got = set()
+    for nd, a in uses:
+        got |= {(x.kind, x.text) for x in torg.of(a, nd.id)}
+    ok = bool(uses) and ("attr", "self.config.accepted_time_diff") in got and \
+        got <= {("attr", "self.config.accepted_time_diff"), ("const", "0")}
     run.check(ok, "R8", fi.qual + "::timeslack", "configured accepted_time_diff",
-              "timeslack <- %s" % [unparse(s.value) for s in ts], fi.loc())
+              "timeslack derives from %s" % sorted(got), fi.loc())
 
 
 CONE = ["entity.Entity._parse_request", "entity.Entity.unravel",
